@@ -251,8 +251,32 @@ def r14_funnel(ctx, rule='R14f'):
               rule, re_.where, re_.qualname, 'raise error from cause', 'the original exception is not chained as __cause__')
     from sa.pattern import has_stmt
     call = dsp.methods.get('__call__')
-    run.check(call is not None and has_stmt('self.position = position', call.node) and has_stmt('self.source = source', call.node)
-              and has_stmt('return self', call.node), rule, dsp.where, dsp.qualname + '.__call__', 'stores source and position',
+    okc = call is not None
+    if okc:
+        from sa.pathvals import PathValues
+        from sa.model import norm_compare
+        from sa.pattern import match_expr
+        calln = ctx.N(call)
+        srcp, posp = calln.params[1], calln.params[2]
+        n_p = 0
+        for p in Enumerator(where=calln.qualname).paths(calln.node.body):
+            pv = PathValues(p)
+            n_p += 1
+            given = None
+            for t, pol in pv.guards:
+                t, pol = norm_compare(t, pol)
+                if match_expr('%s is None' % srcp, t) is not None:
+                    given = not pol
+                elif pseudo(t) == srcp:
+                    given = pol
+            sv = pv.value('self.source')
+            good_src = sv is not None and ((u(sv) == srcp) if given is not False else isinstance(sv, ast.Call))
+            if given is None and sv is not None and isinstance(sv, ast.BoolOp):
+                good_src = pseudo(sv.values[0]) == srcp
+            okc = okc and good_src and pv.value('self.position') is not None and u(pv.value('self.position')) == posp and \
+                len(pv.returns) == 1 and u(pv.returns[0]) == 'self'
+        okc = okc and n_p >= 1
+    run.check(okc, rule, dsp.where, dsp.qualname + '.__call__', 'stores source and position',
               'a step does not remember its position in the flow (errors would name the wrong step) or its upstream')
     # ProcessorError keeps .cause
     pe = ctx.repo.cls('dataflows.base.exceptions:ProcessorError')
